@@ -66,6 +66,8 @@ def draw_rule(r, spec, pool, p_good=0.85, static_bias=0.5):
       cfg = r.choice(['a8w8', 'a8w8', 'a8w8_t', 'a16w8', 'a8sw8'])
   else:
     cfg = r.choice(A.CONFIG_NAMES)
+  if op == '*' and algo == A.MINMAX and r.random() < 0.08:
+    cfg = r.choice(A.ODD_CONFIGS)
   regex = r.choice(pool) if r.random() < 0.55 else '.*'
   return [regex, op, cfg, algo]
 
